@@ -911,6 +911,8 @@ def run(run):
     run.cov["bounds"] = {
         "pool": POOL_TAGS, "sandbox_pool": SANDBOX_TAGS, "wide_pool": EXTRA_SRC, "alarm_s": ALARM_S, "isolated_s": ISOLATED_S,
         "forms_cfg": "Forms_quick" if quick else "Forms_thorough",
+        "graph_cfg": "FormsGraph_quick" if quick else "FormsGraph_thorough",
+        "round2_pool": sorted(GRAPH_SRC), "budget_s": BUDGET_S, "max_alone": MAX_ALONE,
         "function_arity": ("0-1 every site; 2 every distinct function; 3 " +
                            (f"seeded sample of {QUICK_ARITY3} over the functions with three or more parameters"
                             if quick else "every distinct function, exhaustive")),
@@ -928,13 +930,38 @@ def run(run):
         "catch is probed (`do <case> catch all ... end`) for every erroring form case and for the first erroring "
         "tuple of every (function site, arity)",
         "forms of arity 3 use the 11-value sub-pool of Forms_quick.cfg in the quick tier",
+        "round 2: the wide pool also holds data that is finite but no tree (collections holding themselves, a "
+        "`_proto_` chain leading back into itself, a list nested 1500 deep, a map / set keyed by a list changed "
+        "afterwards, an int of 5001 digits, a list mixing 10^400 with a decimal); these values are never sampled "
+        "away and meet additional partners (a date and a decimal, or a list, a set and a map)",
+        "FormsGraph.tla: NCells collections, at most MaxSteps mutating statements, one observer "
+        "(quick 2 / 2, thorough 2 / 3); for ==, < and `in` the model allows both outcome classes",
+        "a case that does not end within 2 s is re-run alone with 10 s; beyond 64 such cases only the first two "
+        "of every site are re-run and, where neither ends, the site's others are believed; once the time budget "
+        "(quick 150 s, thorough 1500 s) is spent on a tree already known to violate the property the remaining "
+        "cases are not executed (coverage.incomplete) - such a run never exits 0",
         "beyond the fixed pool, every distinct function is also called with each value of a wider pool "
         "(nested lists, '(' as pattern text, an object with methods, functions of other arities, ...) as its "
         "single argument, and in the thorough tier with every pair holding at least one such value",
+        "the read-eval-print loop (ckl.repl.main, driven in-process by harness/repl.py) is given lines whose "
+        "evaluation fails or yields values of every kind: no host exception may end the session",
     ]
+    # ---- evaluation inside the read-eval-print loop: printing a result or an error must not raise either
+    from . import repl
+    nrepl = repl.eval_sessions(lambda key, what, case: run.violation(key, what, case))
+    run.cov["repl_lines_evaluated"] = nrepl
+    run.cov["evaluations"] += nrepl
 
 
 def replay(run, case):
+    if case.get("kind") == "repl-eval":
+        from . import repl
+        prompts, outputs, exc = repl.session(case["lines"] + ["exit"], secure=case.get("secure", True))
+        if exc is not None:
+            run.violation(f"repl-eval-host:secure={case.get('secure', True)}:{case['lines'][0]}",
+                          f"repl-host-exception: {type(exc).__name__}: {str(exc)[:80]}", case)
+        run.sample({"replayed": case})
+        return
     sw = Sweep(run, workers=1)
     try:
         job = (case["kind"], case["what"], tuple(case["tags"]))
